@@ -930,27 +930,45 @@ APPEND_CHAIN(struct evbuffer *dst, struct evbuffer *src)
 	dst->total_len += src->total_len;
 }
 
-static inline void
+static inline int
 APPEND_CHAIN_MULTICAST(struct evbuffer *dst, struct evbuffer *src)
 {
 	struct evbuffer_chain *tmp;
-	struct evbuffer_chain *chain = src->first;
+	struct evbuffer_chain *chain;
+	struct evbuffer_chain *spare = NULL;
 	struct evbuffer_multicast_parent *extra;
 
 	ASSERT_EVBUFFER_LOCKED(dst);
 	ASSERT_EVBUFFER_LOCKED(src);
 
-	for (; chain; chain = chain->next) {
+	/* Allocate every referencing chain up front, so that running out of
+	 * memory leaves both buffers untouched. */
+	for (chain = src->first; chain; chain = chain->next) {
+		if (!chain->off || chain->flags & EVBUFFER_DANGLING)
+			continue;
+		tmp = evbuffer_chain_new(sizeof(struct evbuffer_multicast_parent));
+		if (!tmp) {
+			event_warn("%s: out of memory", __func__);
+			while (spare) {
+				tmp = spare->next;
+				mm_free(spare);
+				spare = tmp;
+			}
+			return -1;
+		}
+		tmp->next = spare;
+		spare = tmp;
+	}
+
+	for (chain = src->first; chain; chain = chain->next) {
 		if (!chain->off || chain->flags & EVBUFFER_DANGLING) {
 			/* skip empty chains */
 			continue;
 		}
 
-		tmp = evbuffer_chain_new(sizeof(struct evbuffer_multicast_parent));
-		if (!tmp) {
-			event_warn("%s: out of memory", __func__);
-			return;
-		}
+		tmp = spare;
+		spare = spare->next;
+		tmp->next = NULL;
 		extra = EVBUFFER_CHAIN_EXTRA(struct evbuffer_multicast_parent, tmp);
 		/* reference evbuffer containing source chain so it
 		 * doesn't get released while the chain is still
@@ -968,6 +986,7 @@ APPEND_CHAIN_MULTICAST(struct evbuffer *dst, struct evbuffer *src)
 		tmp->buffer = chain->buffer;
 		evbuffer_chain_insert(dst, tmp);
 	}
+	return 0;
 }
 
 static void
@@ -1068,7 +1087,10 @@ evbuffer_add_buffer_reference(struct evbuffer *outbuf, struct evbuffer *inbuf)
 		evbuffer_free_all_chains(outbuf->first);
 		ZERO_CHAIN(outbuf);
 	}
-	APPEND_CHAIN_MULTICAST(outbuf, inbuf);
+	if (APPEND_CHAIN_MULTICAST(outbuf, inbuf) < 0) {
+		result = -1;
+		goto done;
+	}
 
 	outbuf->n_add_for_cb += in_total_len;
 	evbuffer_invoke_callbacks_(outbuf);
